@@ -530,6 +530,32 @@ func vStackingOrderLong() (n int, fails []string) {
 //@   call drawBackgroundDefaut#5 assert[row-below-its-cells] arg1 == row.Box().Background
 //@   call drawBackgroundDefaut#6 assert[cells-on-top] arg1 == callresult(Box, 6).Background
 
+// CSS 2.1 Appendix E.2 step 7.2 / 7.2.4: for each inline-level box of a line: its background, then its border, then
+// its content (the text, the replaced content, or its child boxes in tree order); a child that is a stacking
+// context (an inline-block) is painted atomically by drawStackingContext.
+//@ func (drawContext).drawInlineLevel
+//@   props C16
+//@   requires box_ != nil
+//@   modifies anything
+//@   unclaimed call-*-pre* "box accessors"
+//@   call drawStackingContext#1 assert[atomic] calls(drawBackgroundDefaut) == 0 && calls(drawBorder) == 0
+//@   call drawBackgroundDefaut#1 assert[background-first] arg1 == callresult(Box, 1).Background && calls(drawBackgroundDefaut) == 1 && calls(drawBorder) == 0 && calls(drawText) == 0 && calls(drawReplacedbox) == 0 && calls(drawInlineLevel) == 0
+//@   call drawBorder#1 assert[border-between-background-and-content] arg1 == box_ && calls(drawBackgroundDefaut) == 1 && calls(drawBorder) == 1 && calls(drawText) == 0 && calls(drawReplacedbox) == 0 && calls(drawInlineLevel) == 0
+//@   call drawReplacedbox#1 assert[content-over-the-border] calls(drawBorder) == 1 && calls(drawBackgroundDefaut) == 1
+//@   call drawText#1 assert[content-over-the-border] calls(drawBorder) == 1 && calls(drawBackgroundDefaut) == 1
+//@   call drawText#2 assert[content-over-the-border] calls(drawBorder) == 1 && calls(drawBackgroundDefaut) == 1
+//@   call drawInlineLevel#1 assert[content-over-the-border] calls(drawBorder) == 1 && calls(drawBackgroundDefaut) == 1 && arg1 == page
+//@   shows[border-drawn-for-every-box-that-is-not-a-context] calls(drawStackingContext) == 1 || (calls(drawBorder) == 1 && calls(drawBackgroundDefaut) == 1)
+
+// CSS 2.1 §9.9.1: the stacking level of a context is the z-index of its box - whatever makes the box positioned
+// (relative, absolute or fixed: NewStackingContextFromBox only builds a context with an integer z-index for a
+// positioned box) - and 0 for z-index: auto (contexts created by opacity, transform or overflow).
+//@ func NewStackingContext
+//@   props C16
+//@   modifies anything
+//@   unclaimed call-*-pre* "box and style accessors"
+//@   shows[level-is-the-z-index] result.zIndex == ite(zIndex.String == "auto", 0, zIndex.Int) && zIndex == callresult(GetZIndex, 1)
+
 //@ func NewStackingContextFromBox
 //@   props C16
 //@   modifies anything
